@@ -180,7 +180,10 @@ func clone(b []byte) []byte {
 	if b == nil {
 		return nil
 	}
-	return append([]byte{}, b...)
+	// exact capacity: a read or reslice beyond len must panic, not see spare bytes
+	out := make([]byte, len(b))
+	copy(out, b)
+	return out
 }
 
 func errStr(err error) string {
